@@ -306,7 +306,9 @@ def nt_body(rng, templater):
     if k == 0:
         return ""  # blank line
     if k == 1:
-        return rng.choice([" ", "\t", o(), "  " + o()])  # visually blank, not empty
+        # visually blank, not empty (FS/GS/RS outside a comment/literal do not lex: with the raw templater that gives a tree after all)
+        w = rng.choice(ODD if templater == "jinja" else ["\x0c", "\x0b", "\x85", "\u2028", "\u2029"])
+        return rng.choice([" ", "\t", w, "  " + w])
     if k == 2:
         return "-- legacy report %s page %d" % (o(), rng.randrange(9))
     if k == 3:
